@@ -177,6 +177,8 @@ pub enum Clause {
     // C17
     NonAcqBlocking,
     NonAcqStateChanged,
+    /// the raw lock's value was overwritten / re-initialised (no raw operation was issued)
+    RawStateOverwritten,
     // harness malfunction (never a violation)
     Harness,
 }
@@ -304,6 +306,8 @@ pub struct Inner {
     pub trace: Vec<(u8, bool)>,
     pub stats: Stats,
     pub ranges: Vec<(usize, usize, Lid)>,
+    /// address of the raw lock inside each lock, learnt from its operations (0: not yet seen)
+    pub raw_addr: Vec<usize>,
     pub pct_changes: Vec<u64>,
     pub shadow: Vec<u64>,
     pub drops: Vec<u32>,
@@ -692,8 +696,22 @@ impl Inner {
             Pending::End => self.logev(t, 23, 0, 0),
             Pending::None => {}
         }
+        if let Pending::Raw { lid, .. } = p {
+            self.sync_mirror(lid);
+        }
         self.threads[t].grant = grant;
         self.trace.push((t as u8, refused));
+    }
+
+    /// write the state of lock `lid` into the byte inside its raw lock (the thread whose
+    /// operation is being applied is inside a call on that raw lock, so it is alive)
+    fn sync_mirror(&self, lid: Lid) {
+        let a = self.raw_addr[lid];
+        if a != 0 && !self.abort {
+            let l = &self.locks[lid];
+            let m = if l.excl.is_some() { 255 } else { l.shared.len().min(254) as u8 };
+            unsafe { (*(a as *const std::sync::atomic::AtomicU8)).store(m, std::sync::atomic::Ordering::Relaxed) };
+        }
     }
 
     fn note_acq(&mut self, t: Tid, lid: Lid, shared: bool, blocking: bool) {
@@ -775,6 +793,7 @@ impl Sched {
                 trace: Vec::new(),
                 stats: Stats::default(),
                 ranges: Vec::new(),
+                raw_addr: vec![0; nlocks],
                 pct_changes,
                 shadow: vec![0; nlocks],
                 drops: vec![0; nlocks],
@@ -924,6 +943,37 @@ impl Sched {
 
     // ---- entry points used by the raw locks and the workload ----
 
+    /// what the byte inside the raw lock at `addr` should read now (None: unknown lock or verdict frozen)
+    pub fn mirror_at(&self, addr: usize) -> Option<u8> {
+        let g = self.lock();
+        // under injected raw-lock faults the harness itself tidies the owner table after a
+        // fault, without operating the lock: the byte is not comparable there
+        if g.abort || g.cfg.faults.raw_faults() {
+            return None;
+        }
+        let lid = g.lid_of(addr)?;
+        let l = &g.locks[lid];
+        Some(if l.excl.is_some() { 255 } else { l.shared.len().min(254) as u8 })
+    }
+
+    /// the raw lock's own byte must agree with the owner table: anything else means the lock
+    /// value was overwritten or re-initialised behind the back of its operations
+    pub fn check_mirror(&self, addr: usize, seen: u8, when: &str) {
+        let expect = match self.mirror_at(addr) {
+            Some(e) => e,
+            None => return,
+        };
+        if seen != expect {
+            let mut g = self.lock();
+            if g.monitors_on && !g.abort {
+                let lid = g.lid_of(addr).unwrap_or(usize::MAX);
+                let d = format!("the raw lock of lock {} reads {} {} but the owner table says {} (0 free, 255 exclusive, n readers): its value was overwritten or re-initialised while {}", lid, seen, when, expect, if expect == 0 { "free" } else { "held" });
+                let me = my_tid().unwrap_or(0);
+                g.event(Clause::RawStateOverwritten, me, d);
+            }
+        }
+    }
+
     pub fn raw(&self, addr: usize, op: RawOp) -> Grant {
         let me = match my_tid() {
             Some(t) => t,
@@ -950,6 +1000,7 @@ impl Sched {
                     return Grant { ok: true, panic: false };
                 }
             };
+            g.raw_addr[lid] = addr;
             // API-call bookkeeping and publish-time monitors
             let held = g.held_by(me);
             let nsteps = g.stats.steps;
